@@ -417,6 +417,8 @@ func neighbourOps(c *props.Ctx, cfg eng.ShapeConfig) {
 		c.R.Failf("anchor meshops.SplitOnUniqueMaterials not found")
 	} else {
 		reportShape(c, fn, eng.AnalyseCursorKeyed(fn), nil)
+		reportShape(c, fn, eng.AnalyseCursorAdvance(fn, func(t types.Type) bool { return ssau.IsNamed(t, mc.ModelingPath, "MeshMaterial") }), nil)
 	}
 	c.R.Floor("SPLIT-1", 1)
+	c.R.Floor("SPLIT-2", 1)
 }
